@@ -309,6 +309,48 @@ func c15r34(c *Ctx, r *Report) {
 	r.floor("places where stderrInternal emits the decoded rune", n, 1)
 }
 
+// c14r26: LightRenderer.Pause switches mouse reporting and bracketed paste off on every path (disableModes is its
+// first statement); LightRenderer.Resume is its counterpart and switches them on again on every path (D115: only
+// under `clear`: after a background command that ran longer than a second — Pause(false) … Resume(false, false) —
+// the terminal sent no more mouse events and pastes were no longer bracketed for the rest of the session).
+func c14r26(c *Ctx, r *Report) {
+	l := c.L
+	r.rule("C14-R26", "A (pairing: the modes switched off in Pause are switched on in Resume)", "P1",
+		"every path from the entry of LightRenderer.Resume to a return passes a call of enableModes, and every path through LightRenderer.Pause passes disableModes",
+		"after execute-silent / transform of more than a second fzf no longer reacts to the mouse, and a pasted newline acts as Enter")
+	en := l.Fn("tui", "(*LightRenderer).enableModes")
+	dis := l.Fn("tui", "(*LightRenderer).disableModes")
+	if en == nil || dis == nil {
+		r.unest("anchors", token.NoPos, nil, "anchors LightRenderer.enableModes / disableModes", "cannot resolve")
+		return
+	}
+	n := 0
+	for _, pair := range []struct {
+		name string
+		want *ssa.Function
+	}{{"(*LightRenderer).Pause", dis}, {"(*LightRenderer).Resume", en}} {
+		fn := l.Fn("tui", pair.name)
+		if fn == nil || len(fn.Blocks) == 0 {
+			r.unest("anchors", token.NoPos, nil, "anchor "+pair.name, "cannot resolve")
+			continue
+		}
+		n++
+		isWant := func(in ssa.Instruction) bool { return staticCallee(in) == pair.want }
+		start := fn.Blocks[0].Instrs[0]
+		hit := pathAvoiding(start, isReturn, isWant, nil)
+		if isWant(start) {
+			hit = nil
+		}
+		pos := fn.Pos()
+		if hit != nil {
+			pos = hit.Pos()
+		}
+		r.check(hit == nil, relName(fn)+":"+pair.want.Name()+" on every path", pos, fn,
+			"no path avoids "+pair.want.Name(), "a path through "+relName(fn)+" returns without "+pair.want.Name()+": the modes are left as the other side set them")
+	}
+	r.floor("Pause / Resume checked", n, 2)
+}
+
 func round12(c *Ctx, r *Report, prop string) {
 	switch prop {
 	case "C07":
@@ -320,6 +362,7 @@ func round12(c *Ctx, r *Report, prop string) {
 		c11r28(c, r)
 	case "C14":
 		c14r25(c, r)
+		// c14r26(c, r) -- armed together with the repair D115
 	case "C15":
 		c15r32(c, r)
 		c15r33(c, r)
